@@ -112,6 +112,18 @@ def cases(rng, tier):
         yield view_case(rng, op, rng.choice(CORNERS), zero_imm=True)
         for mode in ("five", "single"):      # the longest printed forms, in both views
             yield view_case(rng, op, (rng.randrange(10, 32), rng.randrange(10, 32), rng.randrange(10, 32)), wide=True, mode=mode)
+    # instructions the execution model leaves out (CSR forms, ebreak) are still LISTED: judge the listing without stepping
+    for op in ("csrrw", "csrrs", "csrrc", "csrrwi", "csrrsi", "csrrci", "ebreak", "ecall"):
+        for csr in (0, 1, 0x300, 4095):
+            for regs in ((0, 0), (5, 6), (10, 0)):
+                if op.startswith("csr"):
+                    tok = f"{op},{regs[0]},{regs[1]},0,0,{csr}" if not op.endswith("i") else f"{op},{regs[0]},0,0,{regs[1]},{csr}"
+                else:
+                    tok = "ecall,0,0,0,0,0" if op == "ecall" else "ebreak,0,0,0,1,0"
+                prog = ["addi,0,0,0,0,0", tok]
+                mode = "five" if (csr + regs[0]) % 2 else "single"
+                lines = [f"sim.new {mode} 1 - lru,0,1,1,0", "sim.prog " + " ".join(prog), "sim.snap"]
+                yield Case("views", lines, None, {"tok": tok, "addr": 4, "prog": prog, "mode": mode})
     # listing fix-point
     for _ in range(60 if tier == "quick" else 1000):
         items, decls = rvasmgen.gen_abstract(rng, {"data": rng.random() < 0.5})
